@@ -230,3 +230,7 @@ func c15Script(L, K, pattern int, inject, frag bool, nchunk int) {
 		}
 	}
 }
+
+// C10: the WebTransport read limit, any 64-bit declared length against any limit: the
+// same reader oracle as C15 (limit enforced before delivery, ErrReadLimit, session close).
+func VerifH_C10_wt_frame_limit() { c15Script(10, 2, 0b00, false, false, 1) }
